@@ -24,10 +24,13 @@ import (
 	"context"
 	"encoding/binary"
 	"fmt"
+	"os"
 	"sort"
 	"strings"
+	"sync"
 	"sync/atomic"
 	"testing"
+	"time"
 
 	"github.com/oklog/ulid/v2"
 
@@ -482,10 +485,44 @@ func TestVerifC08(t *testing.T) {
 	total := offs[len(subsets)]
 	var n, steps atomic.Int64
 	var shapes [4]atomic.Int64
-	r.ParallelN(total, func(i int64) {
+	rule := fmt.Sprintf("every subset of <=%d of %d block time ranges x class per block (3^n) x at most one block failed / 6%% tombstones / fully deleted (1+3n) x out-of-order hint pattern (none/all/alternating; only alternating at the maximal size) x overlapping compaction on/off, ranges %v; each case is iterated plan -> CompactBlockMetas -> replace until the plan is empty, the oracle is applied to every plan and every merged meta on the way. distinct_nontrivial = distinct cases whose first plan is non-empty; distinct_outcomes = distinct trajectories of plan shapes.", maxN, len(c08Spans), c08Ranges)
+	caseOf := func(i int64) c08Case {
 		si := sort.Search(len(subsets), func(k int) bool { return offs[k+1] > i })
-		cs := c08CaseAt(subsets[si], i-offs[si], modes(len(subsets[si])))
+		return c08CaseAt(subsets[si], i-offs[si], modes(len(subsets[si])))
+	}
+	// Hang detector: plan() works on a handful of metas and returns within microseconds. A case
+	// that has not returned after 60 s means plan() does not terminate (which no recover() can
+	// catch): report it, write the evidence and leave the process.
+	var running sync.Map // case index -> start time
+	stop := make(chan struct{})
+	defer close(stop)
+	go func() {
+		for {
+			select {
+			case <-stop:
+				return
+			case <-time.After(2 * time.Second):
+			}
+			running.Range(func(k, v any) bool {
+				if time.Since(v.(time.Time)) < 60*time.Second {
+					return true
+				}
+				cs := caseOf(k.(int64))
+				r.Violation("plan-does-not-terminate", fmt.Sprintf("plan/compact iteration has not returned for 60 s  [initial blocks %v; overlapping compaction %v; ranges %v]", cs.blocks(), cs.Overlaps, c08Ranges), cs)
+				r.NotExhaustive("aborted: plan() did not return")
+				r.Count("evaluations", int(n.Load()))
+				r.Set("rule", rule)
+				r.Finish()
+				os.Exit(0)
+				return false
+			})
+		}
+	}()
+	r.ParallelN(total, func(i int64) {
+		cs := caseOf(i)
+		running.Store(i, time.Now())
 		traj, first := c08Run(r, pick(cs), cs)
+		running.Delete(i)
 		k := n.Add(1)
 		steps.Add(int64(strings.Count(traj, " ")))
 		switch strings.TrimSuffix(first, "(overlapping)") {
@@ -511,7 +548,7 @@ func TestVerifC08(t *testing.T) {
 	r.Set("first_plan_shapes", map[string]int64{"overlap_group": shapes[0].Load(), "range_group": shapes[1].Load(), "tombstone_rewrite": shapes[2].Load(), "empty": shapes[3].Load()})
 	r.Set("max_blocks", maxN)
 	r.Set("time_ranges", len(c08Spans))
-	r.Set("rule", fmt.Sprintf("every subset of <=%d of %d block time ranges x class per block (3^n) x at most one block failed / 6%% tombstones / fully deleted (1+3n) x out-of-order hint pattern (none/all/alternating; only alternating at the maximal size) x overlapping compaction on/off, ranges %v; each case is iterated plan -> CompactBlockMetas -> replace until the plan is empty, the oracle is applied to every plan and every merged meta on the way. distinct_nontrivial = distinct cases whose first plan is non-empty; distinct_outcomes = distinct trajectories of plan shapes.", maxN, len(c08Spans), c08Ranges))
+	r.Set("rule", rule)
 	r.Assume("metadata-level compaction model: planned blocks are replaced by one block with CompactBlockMetas' time range and hints, no tombstones; a compaction of only fully deleted blocks yields no block")
 	r.Assume("'newest block' is read per class (the planner treats each class as its own sequence); 'mutually overlapping' is read as one overlap group (every block starts before the end of an earlier one)")
 	for i, name := range []string{"overlap", "range", "tombstones", "empty"} {
